@@ -755,7 +755,13 @@ class Gen9:
         rng = self.rng
         vec = rng.random() < 0.35
         cols = 1 if vec else rng.randint(1, 3)
-        return [[rng.randint(-2, 2) for _ in range(cols)] for _ in range(n)], vec, "f64"
+        X = [[rng.randint(-2, 2) for _ in range(cols)] for _ in range(n)]
+        for j in range(cols):
+            # no zero column: the iterative paths (Krylov operators, inv through CG/GMRES) normalise by the norm of the
+            # operand, 0/0 = NaN for a zero column -- IEEE-only behaviour outside the exact model (C12/C13/C14/C15 matter)
+            if all(X[i][j] == 0 for i in range(n)):
+                X[rng.randrange(n)][j] = 1
+        return X, vec, "f64"
 
 
 def tree_is_cplx(e):
@@ -906,6 +912,38 @@ def sta_risk(e):
     return False
 
 
+def inv_base_leaves(e):
+    """the sub-operators `inv(., CG | GMRES)` hands to the iterative solver, following inv's structural rules
+    (Identity, ScalarMul, Diagonal, BlockDiag, Kronecker, Product member-wise; anything else as a whole)"""
+    t = e[0]
+    if t == "ann":
+        return inv_base_leaves(e[2])
+    if t in ("diag", "scalar", "eye"):
+        return []
+    if t == "bdiag":
+        return [y for x in e[1] for y in inv_base_leaves(x)]
+    if t in ("kron", "prod"):
+        return [y for x in e[1:] for y in inv_base_leaves(x)]
+    return [e]
+
+
+def krylov_iters_inv(e):
+    """max_iters for pow(., -1, Lanczos | Arnoldi): every iterative solve is on a dense leaf with distinct spectrum
+    whose size is max_iters (else the solver runs past a Krylov breakdown: C12/C13 matter), or None"""
+    leaves = inv_base_leaves(e)
+    if not leaves:
+        return size_of(e)
+    sizes = set()
+    for x in leaves:
+        y = x
+        while y[0] == "ann":
+            y = y[2]
+        if y[0] != "dense" or size_of(x) < 2:
+            return None
+        sizes.add(size_of(x))
+    return sizes.pop() if len(sizes) == 1 else None
+
+
 def admissible(cls, fn, alpha, ufn):
     """is the spectrum class inside the function's domain (principal branch, finite values)?"""
     if cls == "spsd":
@@ -964,8 +1002,11 @@ def gen_cases(ctx, rng, nprng, n_trees):
                 X, vec, xdt = G.operand(n, tree_is_cplx(e))
             c.update({"x": X, "vec": vec, "xdt": xdt})
             if c["alg"] in ("lanczos", "arnoldi"):
-                shortcut = c["fn"] == "pow" and frac(c["alpha"]) in (0, 1, 2, 3, 9, -1)
+                shortcut = c["fn"] == "pow" and frac(c["alpha"]) in (0, 1, 2, 3, 9)       # no Krylov operator is built
                 ki = krylov_iters(e, c["fn"])
+                if c["fn"] == "pow" and frac(c["alpha"]) == -1 and e[0] != "kron":
+                    # inv through CG / GMRES (a unimodular integer leaf is defective: Krylov breakdown, C12/C13 matter)
+                    ki = None if (cls == "exact" and has_ring_only_leaf(e)) else krylov_iters_inv(e)
                 if ki is None and not shortcut:
                     c["alg"] = rng.choice(["none", "auto", "eig"])
                 elif ki is not None:
